@@ -868,6 +868,18 @@ func DeleteHistoricVersions(ctx context.Context, s *DB, before time.Time) error 
 	if err != nil {
 		return fmt.Errorf("get historic roots: %w", err)
 	}
+	// Retiring a version from current/ is best-effort, so a version that is history here can
+	// still be listed there. Finish that first: once its nodes are gone, every open that
+	// finds it listed would fail.
+	for _, l := range roots {
+		_, err := s.s3Client.DeleteObjectWithContext(ctx, &s3.DeleteObjectInput{
+			Key:    aws.String(s.root.Prefix + l),
+			Bucket: aws.String(s.root.BucketName),
+		})
+		if err != nil {
+			return fmt.Errorf("retire root: %s: %w", l, err)
+		}
+	}
 	for _, l := range nodes {
 		// the node cache is also the tree's record of which nodes are stored: forget
 		// the node, or a later commit that produces the same node again skips its PUT
